@@ -370,6 +370,21 @@ func (h *harness) decodeEntryPoints() (ok bool) {
 
 		return true
 	}
+	if t.Bias("dec", 1, 30) {
+		// the size boundary: a data frame whose body is one Binary item filling the frame exactly, with
+		// the length field at, just below and just above the cap (the receive path's cap is exercised
+		// on the wire with the length field alone; here the bytes really are there)
+		l := capLen + []int{-1, 0, 1, 2, 10, 11}[t.Choose("dec", 6)]
+		b := make([]byte, 4+l)
+		binary.BigEndian.PutUint32(b[:4], uint32(l))
+		copy(b[4:14], []byte{0, 1, 0x81, 1, 0, 0, 0, 0, 0, 9})
+		n := l - 10 - 4
+		b[14], b[15], b[16], b[17] = 0x23, byte(n>>16), byte(n>>8), byte(n)
+		w.Probe(fmt.Sprintf("decode_size_boundary_cap%+d", l-capLen))
+		if !try(b, fmt.Sprintf("data/length-field=cap%+d", l-capLen)) {
+			return false
+		}
+	}
 	for _, f := range h.sc.Frames {
 		if len(f.Raw) > 5000 {
 			continue
